@@ -736,6 +736,7 @@ func (t *Tree) Compile(file string, args []string, out io.Writer) (err error) {
 				consumes = true
 				properties := make([]struct {
 					intersects bool
+					consumes   bool
 					s          *set.Set
 				}, n.Len())
 
@@ -743,7 +744,9 @@ func (t *Tree) Compile(file string, args []string, out io.Writer) (err error) {
 					properties[i].s = set.NewSet()
 				}
 				for i, element := range n.Iterator2() {
-					consumes, properties[i].s = optimizeAlternates(element)
+					properties[i].consumes, properties[i].s = optimizeAlternates(element)
+					/* the choice consumes only if every alternative does */
+					consumes = consumes && properties[i].consumes
 					s = s.Union(properties[i].s)
 				}
 
@@ -754,7 +757,9 @@ func (t *Tree) Compile(file string, args []string, out io.Writer) (err error) {
 				intersections := 2
 				for ai, a := range properties[:len(properties)-1] {
 					for _, b := range properties[ai+1:] {
-						if a.s.Intersects(b.s) {
+						/* an alternative that may succeed without consuming input
+						   can not be selected by looking at the next character */
+						if !a.consumes || !b.consumes || a.s.Intersects(b.s) {
 							intersections++
 							properties[ai].intersects = true
 							break
@@ -789,7 +794,7 @@ func (t *Tree) Compile(file string, args []string, out io.Writer) (err error) {
 						sequence.PushBack(predicate)
 						sequence.PushBack(element.Copy())
 
-						if element.GetType() == TypeNil {
+						if element.GetType() == TypeNil || !properties[i].consumes {
 							unordered.PushBack(sequence)
 						} else if length > maxVal {
 							unordered.PushBack(sequence)
